@@ -18,11 +18,19 @@ RULE = ('(a) generated signals (11 kinds, 8 sampling rates) x first_extrema in {
         '(thorough) x raw signals over {0,1,2} with ties x boundary in {0,1,2,3}; (c) the same stub with pad=True (pad width '
         '1-3 from a one- or three-tap filter length, raw signals over {0,1,2} or {-1,0,1}, so that extrema tie with the padding '
         'zeros) x boundary in {0,1,2}; (d) stubbed random sign patterns of length 9-16 with short runs x boundary in {0..3}, '
-        'padded and un-padded. In (a) and the short-filter stream ~15 % of the cases (kind +len) have fs, band and filter '
+        'padded and un-padded; (e) the padded stub with (fs, band, filter length) of the +len class below (4-14 raw samples inside '
+        'the padding of a 20-270-tap filter). In every stub stream the harness also resolves the arguments the implementation '
+        'hands to filter_signal to a tap count (neurodsp compute_filter_length) and compares it with the documented one (from '
+        'n_seconds if given, else n_cycles, default 3): a difference is reported through the model comparison. In (a) and the '
+        'short-filter stream ~30 % of the cases (kind +len) have fs, band and filter '
         'length re-chosen from a table derived by search so that fs * n_cycles / f_lo (n_cycles given or the default 3) or '
         'fs * n_seconds is exactly an odd / even integer number of samples or one ulp beside one, mostly where the '
-        'mathematically equivalent binary64 computations of that length disagree after the ceil (60 % of them with broadband noise added, +rough); all other '
-        'cases are unchanged. non-trivial = at least 2 peaks and 2 troughs reported')
+        'mathematically equivalent binary64 computations of that length disagree after the ceil, 40 % of them where the '
+        'resolved tap count itself is not reproduced when re-expressed in seconds or cycles and turned back into samples; 80 % '
+        'of the +len cases are 900-3500 samples of broadband noise with a weak waxing and waning rhythm (+fragile: many '
+        'low-amplitude half-waves, so that a band-pass a few taps longer or shorter changes the reported extrema), of the '
+        'others 60 % have broadband noise added (+rough); all other cases are unchanged. '
+        'non-trivial = at least 2 peaks and 2 troughs reported')
 EXHAUSTIVE = {'quick': False, 'thorough': False}
 ASSUMPTIONS = ['signals are finite (no NaN/inf)', 'reference filter output has no NaN',
                'inputs with no rising or no decaying crossing (fewer than one oscillation) are outside the property and skipped',
@@ -30,7 +38,9 @@ ASSUMPTIONS = ['signals are finite (no NaN/inf)', 'reference filter output has n
                'RETURNING extrema (any exception, or two empty arrays, is accepted); an invalid first_extrema value is outside '
                'the quantifier and not judged; the exception CLASS is compared with the model only',
                'pad=True pads ceil(filter_length/2) zeros on each side (neurodsp compute_filter_length); a stub case whose '
-               'filter is called with another length is skipped and counted (kind stub*/skip)']
+               'filter is called with another length is skipped and counted (kind stub*/skip)',
+               'stub streams: a filter_signal call whose arguments resolve to another tap count than the documented one is a '
+               'harness-level difference (sent to the model comparison as a result no model result equals), not an oracle failure']
 FIRSTS = {'peak': 'FPeak', 'trough': 'FTrough', None: 'FNone', 'bogus': 'FInvalid'}
 
 
@@ -85,10 +95,27 @@ def cases(rng, tier):
         bits = bits[:ln]
         ok = [g for g in cfgs if ln - 2 * g[3] >= 4]
         out.append(_stub_case(rng, bits, rng.choice(ok) if ok and rng.random() < 0.5 else None, [0, 1, 2, 3]))
+    # padded stub with (fs, f_range, filter length) combinations of the +len class: 4-14 raw samples inside a padding of
+    # half a 20-270-tap filter; what matters here is WHICH filter the implementation asks for (run_impl compares the tap
+    # count its filter_signal arguments resolve to with the documented one) and the un-padding by that many samples
+    for _ in range(150 if tier == 'quick' else 1500):
+        cfg = _len_cfg(rng)
+        if cfg is None:
+            continue
+        ln = 2 * cfg[3] + rng.randint(4, 14)
+        bits, b = [], rng.random() < 0.5
+        while len(bits) < ln:
+            bits.extend([b] * rng.choice([1, 1, 2, 2, 3, 5, 9]))
+            b = not b
+        out.append(dict(_stub_case(rng, bits[:ln], cfg, [0, 0, 1, 2]), kind='stubpad+len'))
     return out
 
 
-EXACT_SHARE = 0.15
+EXACT_SHARE = 0.3
+ROUNDTRIP_SHARE = 0.4      # of the +len cases: the resolved tap count itself does not survive taps -> seconds -> samples
+FRAGILE_SHARE = 0.8         # of the +len cases: signal replaced by a long broadband one with a weak rhythm
+FRAGILE_LEN = (900, 1500)
+FRAGILE_PER_TAP, FRAGILE_MAX = 25, 3500
 
 
 def exact_length(c, period, short=False):
@@ -96,30 +123,65 @@ def exact_length(c, period, short=False):
     shifted, all other cases stay as they were) fs, the band and the filter length are replaced by a combination from
     gen.exact_cycle_table / gen.exact_seconds_pick: fs * n_cycles / f_lo (n_cycles given, or the default 3) or
     fs * n_seconds is exactly an odd / even integer or one ulp beside one, and (80 %) the mathematically equivalent ways
-    of computing that length in binary64 disagree after the ceil.  Band (f_lo, 2 f_lo), rhythm inside.  short: the
-    shortfilter stream (n_seconds of 0.3-0.6 periods of the low cut-off).  60 % of these cases get broadband noise of 0.3 / 0.6 / 1 standard deviations added (gen.roughen, +rough).  Kind
-    tagged +len, choice recorded in `exact`."""
+    of computing that length in binary64 disagree after the ceil; ROUNDTRIP_SHARE of them from the sub-table on which the
+    resolved tap count T itself is not reproduced when expressed in seconds or cycles and turned back into samples
+    (gen.taps_length_ways, e.g. fs * (T / fs) one ulp above T).  Band (f_lo, 2 f_lo), rhythm inside.  short: the
+    shortfilter stream (n_seconds of 0.3-0.6 periods of the low cut-off).  An extrema-only statement sees another
+    band-pass only where it moves a zero crossing across a raw extremum or adds / removes a half-wave, which two taps more
+    on a 40-250-tap kernel rarely do on a clean rhythm of a few hundred samples: FRAGILE_SHARE of these cases get their
+    samples replaced by gen.fragile (900-1500 samples of broadband noise with a weak, waxing and waning rhythm of the
+    same period, amplitude 0 / 0.15 / 0.4 of the noise; a quarter coarsely rounded so that raw extrema tie), kind
+    +fragile; of the others 60 % get broadband noise of 0.3 / 0.6 / 1 standard deviations added (gen.roughen, +rough).
+    Kind tagged +len, choice recorded in `exact`."""
     r = random.Random(canon_hash(c) + '/exactlen')
     if r.random() >= EXACT_SHARE:
         return
     nsamp = len(c['sig'])
+    frag = None
+    if r.random() < FRAGILE_SHARE:
+        frag = {'n': r.randint(*FRAGILE_LEN), 'amp': r.choice([0.0, 0.15, 0.4]), 'quant': r.choice([None, None, None, 2]),
+                'seed': r.randrange(1 << 30)}
+        nsamp = frag['n']     # (made longer below when the kernel is long)
     how = 'seconds' if short else r.choice(['default', 'cycles', 'cycles', 'seconds', 'seconds'])
-    e = gen.exact_cycles_pick(r, period, nsamp, n=None if how == 'cycles' else 3)
+    rt = r.random() < ROUNDTRIP_SHARE
+    ncyc = None if how == 'cycles' else 3
+    span = (0.25, 0.7) if short else (0.4, 4.0)
+    e = sec = None
+    if rt and how == 'seconds':
+        for _ in range(8):
+            e = gen.exact_cycles_pick(r, period, nsamp, n=3)
+            sec = gen.seconds_roundtrip_pick(r, e['fs'], e['f_lo'], nsamp, *span) if e else None
+            if sec:
+                break
+    elif rt:
+        e = gen.exact_cycles_roundtrip_pick(r, period, nsamp, n=ncyc)
+        if e is None:
+            e = gen.exact_cycles_roundtrip_pick(r, period, nsamp)
+            how = 'cycles' if e else how
+    e = e or gen.exact_cycles_pick(r, period, nsamp, n=ncyc)
     if e is None:
         return
-    x = {'how': how, 'n': e['n'], 'L': e['L'], 'rel': e['rel'], 'disc_taps': e['disc_taps']}
+    x = {'how': how, 'n': e['n'], 'L': e['L'], 'rel': e['rel'], 'disc_taps': e['disc_taps'], 'roundtrip': e.get('roundtrip', 0)}
     fk = None
     if how == 'cycles':
         fk = {'n_cycles': e['n']}
     elif how == 'seconds':
-        sec = gen.exact_seconds_pick(r, e['fs'], e['f_lo'], nsamp, *((0.25, 0.7) if short else (0.4, 4.0)))
+        sec = sec or gen.exact_seconds_pick(r, e['fs'], e['f_lo'], nsamp, *span)
         if sec is None:
             x['how'] = 'default'
         else:
             fk = {'n_seconds': sec['n_seconds']}
-            x.update(L=sec['L'], rel=sec['rel'], disc_taps=sec['disc_taps'])
+            x.update(L=sec['L'], rel=sec['rel'], disc_taps=sec['disc_taps'], roundtrip=sec.get('roundtrip', 0))
     c.update(fs=e['fs'], f_range=[e['f_lo'], round(2 * e['f_lo'], 6)], filter_kwargs=fk, kind=c['kind'] + '+len', exact=x)
-    if r.random() < 0.6:
+    if frag is not None:
+        # the longer the kernel, the less two taps change it: FRAGILE_PER_TAP samples per tap, at most FRAGILE_MAX
+        frag['n'] = max(frag['n'], min(FRAGILE_PER_TAP * x['L'], FRAGILE_MAX))
+        x['fragile'] = frag
+        c.update(sig=gen.hexlist(gen.fragile(frag['seed'], frag['n'], period, frag['amp'], frag['quant'])),
+                 kind=c['kind'] + '+fragile')
+        if c['boundary'] > 5:
+            c['boundary'] = frag['n'] // 10
+    elif r.random() < 0.6:
         # broadband noise on top (a kernel two taps longer moves no crossing of a clean rhythm)
         x['rough'] = r.choice([0.3, 0.6, 1.0])
         c.update(sig=gen.hexlist(gen.roughen(r.randrange(1 << 30), gen.unhexlist(c['sig']), x['rough'])), kind=c['kind'] + '+rough')
@@ -140,6 +202,57 @@ def _pad_cfgs():
     return out
 
 
+def _len_cfg(rng):
+    """(fs, f_range, filter_kwargs, pad width) of the +len class (see exact_length): filter length given as the default
+    3 cycles, n_cycles or n_seconds, on an integer number of samples or one ulp beside it; half of them from the
+    sub-tables on which the resolved tap count does not survive being re-expressed in seconds / cycles."""
+    period = rng.choice([8, 10, 12, 16])
+    how = rng.choice(['default', 'cycles', 'seconds'])
+    rt = rng.random() < 0.5
+    n = None if how == 'cycles' else 3
+    e = (gen.exact_cycles_roundtrip_pick(rng, period, 400, n=n) if rt and how != 'seconds' else None) \
+        or gen.exact_cycles_pick(rng, period, 400, n=n)
+    if e is None:
+        return None
+    fk = None
+    if how == 'cycles':
+        fk = {'n_cycles': e['n']}
+    elif how == 'seconds':
+        sec = (gen.seconds_roundtrip_pick(rng, e['fs'], e['f_lo'], 400) if rt else None) \
+            or gen.exact_seconds_pick(rng, e['fs'], e['f_lo'], 400)
+        if sec:
+            fk = {'n_seconds': sec['n_seconds']}
+    f_range = [e['f_lo'], round(2 * e['f_lo'], 6)]
+    try:
+        return e['fs'], f_range, fk, ref.pad_len(e['fs'], f_range, fk)
+    except Exception:
+        return None
+
+
+def documented_taps(c):
+    """Tap count of the band-pass the documentation promises for the case: from n_seconds if given, else from n_cycles
+    (default 3) cycles of the low cut-off (neurodsp compute_filter_length: ceil, made odd)."""
+    from neurodsp.filt.fir import compute_filter_length
+    fk = c['filter_kwargs'] or {}
+    ns = fk.get('n_seconds', None)
+    nc = None if ns is not None else fk.get('n_cycles', 3)
+    return int(compute_filter_length(c['fs'], 'bandpass', c['f_range'][0], c['f_range'][1], n_seconds=ns, n_cycles=nc))
+
+
+def asked_taps(args, kwargs):
+    """Tap count that the arguments of one filter_signal(sig, fs, pass_type, f_range, **kwargs) call resolve to in
+    neurodsp (n_cycles defaults to 3 only when neither length is given; both given is an error there)."""
+    from neurodsp.filt.fir import compute_filter_length
+    names = ['fs', 'pass_type', 'f_range']
+    a = dict(zip(names, args))
+    a.update({k: v for k, v in kwargs.items() if k in names})
+    ns, nc = kwargs.get('n_seconds', None), kwargs.get('n_cycles', None)
+    if ns is None and nc is None:
+        nc = 3
+    f_range = a['f_range']
+    return int(compute_filter_length(a['fs'], a['pass_type'], f_range[0], f_range[1], n_cycles=nc, n_seconds=ns))
+
+
 def _stub_case(rng, bits, cfg, boundaries):
     """Filter stubbed to a prescribed array with the sign pattern `bits` (non-positive entries are -1 or exactly 0);
     cfg = None: pad=False; else pad=True with the pad width of cfg."""
@@ -155,7 +268,7 @@ def _stub_case(rng, bits, cfg, boundaries):
     raw = [float(rng.choice(alpha)) for _ in range(ln - 2 * k)]
     return {'kind': 'stubpad', 'sig': gen.hexlist(raw), 'filt': filt, 'fs': fs, 'f_range': list(f_range), 'padn': k,
             'boundary': rng.choice(boundaries), 'first': rng.choice(['peak', 'trough', None]),
-            'filter_kwargs': dict(fk), 'pad': True, 'negate': False}
+            'filter_kwargs': dict(fk) if fk is not None else None, 'pad': True, 'negate': False}
 
 
 def run_impl(c):
@@ -170,10 +283,14 @@ def run_impl(c):
             if orig is None:
                 return {'skip': 'no filter_signal name to stub'}
             filt = np.array(c['filt'], dtype=float)
-            seen = []
+            seen, asked = [], []
 
             def stub(s, *a, **k):
                 seen.append(len(s))
+                try:
+                    asked.append(asked_taps(a, k))
+                except Exception as e:
+                    asked.append('unresolvable (%s: %s)' % (type(e).__name__, e))
                 return filt.copy()
             ex.filter_signal = stub
             pos, padn = [bool(x > 0) for x in filt], c.get('padn', 0)
@@ -196,6 +313,16 @@ def run_impl(c):
         if c['kind'].startswith('stub') and seen != [len(filt)]:
             # the implementation filtered something else than the (padded) signal the stub stands for
             return {'skip': 'stubbed filter called with lengths %s, prescribed output has %d' % (seen, len(filt))}
+        if c['kind'].startswith('stub'):
+            # harness-level comparison (no property statement mentions the kernel's tap count by itself): the filter the
+            # implementation asks for must be the documented one
+            try:
+                want = documented_taps(c)
+            except Exception:
+                want = None
+            r['taps'] = {'asked': asked, 'documented': want}
+            if want is not None and asked != [want]:
+                r['harness_diff'] = 'filter_signal is asked for a %s-tap band-pass, the documented length is %d taps' % (asked, want)
     finally:
         if orig is not None:
             ex.filter_signal = orig
@@ -280,7 +407,11 @@ def coq_case(c, o):
         sig = -sig
     inp = '(%s, %s, %d%%nat, %s%%Z, %s)' % (coqio.barr(o['ref']['npos'], o['ref']['pos']), coqio.flist(sig),
                                            o['ref']['padn'], coqio.Z(c['boundary']), FIRSTS[c['first']])
-    if 'err' in o:
+    if o.get('harness_diff'):
+        # sent as an implementation result that no model result equals (the model never returns EOther, proved
+        # unreachable): surfaces as a model / implementation mismatch, reported without a failing input for the property
+        out = '(Err EOther)'
+    elif 'err' in o:
         out = '(Err %s)' % ERRMAP.get(o['err'], 'EOther')
     else:
         out = '(Ok (%s, %s))' % (coqio.zlist(o['peaks']), coqio.zlist(o['troughs']))
